@@ -218,7 +218,7 @@ class Compiler:
                     + list(scenario["tags"])
                     + list(examples["tags"])
                 )
-                last_keyword_type = None
+                last_keyword_type = "Unknown"
                 steps = list()
                 if scenario["steps"]:
                     for step in background_steps:
